@@ -24,7 +24,7 @@ def main():
         env = dict(os.environ, VERIF_HOME=home, VERIF_REPO=wt)
         for p in props:
             t = time.time()
-            r = subprocess.run([home + "/check", p, "--tier", "thorough"], capture_output=True, text=True, env=env, cwd=home)
+            r = subprocess.run([home + "/check", p, "--tier", os.environ.get("ISO_TIER", "thorough")], capture_output=True, text=True, env=env, cwd=home)
             lines = [l for l in r.stdout.split("\n") if l.startswith(("VIOLATION", "KNOWN"))]
             print(p, "exit", r.returncode, "%.0fs" % (time.time() - t), [l[:160] for l in lines[:3]], flush=True)
             for l in lines[:2]:
